@@ -68,6 +68,29 @@ func Harness_C07_lasso() {
 		}
 	}
 	verifReach("trace-built")
+	// Append: extends the receiver by the tail of a trace that starts with the receiver's label, else nil
+	other := NewNodeTree(labels[verifPick("append-root", 0, 2)])
+	m := verifPick("append-length", 0, 2)
+	var tail []int
+	for i := 0; i < m; i++ {
+		k := verifPick("append-label", 0, 2)
+		other = other.Add(labels[k])
+		tail = append(tail, k)
+	}
+	joined := tree.Append(other)
+	rootMatches := other.ToSlice()[0] == labels[seq[len(seq)-1]]
+	verifAssert("append-nil-iff-first-label-differs", (joined == nil) == !rootMatches)
+	if joined != nil {
+		js := joined.ToSlice()
+		verifAssert("append-length", len(js) == len(seq)+len(tail))
+		for j := range js {
+			if j < len(seq) {
+				verifAssert("append-keeps-prefix", js[j] == labels[seq[j]])
+			} else if j-len(seq) < len(tail) {
+				verifAssert("append-adds-tail-in-order", js[j] == labels[tail[j-len(seq)]])
+			}
+		}
+	}
 	var nilTree *NodeTree[*c07Label]
 	verifAssert("nil-trace-has-no-lasso", nilTree.GetLassoHandle() == nil)
 	verifAssert("nil-trace-len", nilTree.Len() == 0)
